@@ -66,6 +66,12 @@ struct radio_state
     std::function< write_buffer() >                         buf_next_transmit;
     // the world
     std::function< void( radio_state& ) >                   world_activity;
+    // set by the radio that runs the real nRF52 front end (harness/nrf_bridge.hpp): the radio decides about scan requests itself,
+    // exchanges one pair of PDUs per connection event and treats a CRC error as no reception
+    bool                                                    real_front = false;
+    std::function< bool( const std::uint8_t*, std::size_t ) > front_adv_reception;     // -> a scan response was sent
+    write_buffer                                            front_response{ nullptr, 0 };
+    std::uint8_t                                            front_rx_header[ 2 ] = { 0, 0 };
 };
 
 extern radio_state* g_current_radio;        // set while a link layer is constructed / alive (one world per process at a time)
